@@ -1,59 +1,122 @@
 """Case generator for engine "rcache" (C04, addrxlat read cache).
 
 A case is a history of operations on one fresh context, see ml/eng_rcache.ml:
-G:as:addr  R:as:addr  B:as:addr  N:as:addr:as2:addr2 (all hex).  Addresses are drawn
-from a small pool of regions of the synthetic callback (0x1000-byte pages below 0x10000
-and at the top of the address space, 0x100-byte regions elsewhere; block number
-mod 8 == 5 resp. 3 fails), so that hits, misses with and without eviction, failures,
-addresses just below a cached region (unsigned wrap-around in the hit test) and the
-last page of the address space all occur."""
+G:as:addr  R:as:addr  B:as:addr  N:as:addr:as2:addr2 (all hex).
 
-TOP = 0xfffffffffffff000
+The synthetic callback (ReadCache.synth_get_page = harness/rcache_drv.c) lays regions out
+by the low 16 bits of the address (bit 15 clear: 0x1000-byte pages, set: 0x100-byte
+regions; page number mod 8 == 5 / region number mod 8 == 3 fails), so every region has
+look-alikes 2^16, 2^31, 2^32, 2*2^32, 2^63 away -- with different bytes.  Histories are
+built from plain operations (hits, misses with and without eviction, failures, addresses
+just below/above a cached region, the last region of the address space) and from
+*collision segments*: touch a region, at most 3 other regions, then G / R / B at the same
+offset of a look-alike region (a hit test or data offset computed in fewer than 64 bits
+would take the cached slot for it; after a B further misses show which slot is the LRU
+victim -- the slot order is printed after every operation anyway)."""
+
 MAX = (1 << 64) - 1
+SHIFTS = [1 << 16, 1 << 31, 1 << 32, 2 << 32, 1 << 63]
+POOL = [0x0, 0x1000, 0x2000, 0x3000, 0x4000, 0x5000, 0x6000, 0x7000, 0x10000, 0x15000, 0x26000,   # pages
+        0x8000, 0x8100, 0x8200, 0x8300, 0x8400, 0xff00, 0x18000, 0x7fff00,                       # 0x100 regions
+        1 << 31, 1 << 32, 1 << 63, (1 << 64) - (1 << 32), (1 << 64) - (1 << 32) - 0x100,
+        (1 << 64) - 0x100, (1 << 64) - 0x8000]
 
 
-def _regions(rng):
-    pool = [0x0, 0x1000, 0x2000, 0x3000, 0x4000, 0x5000, 0x6000, 0xd000, 0xf000,     # pages (5, d fail)
-            0x10000, 0x10100, 0x10200, 0x10300, 0x10400, 0x20000, 0x20b00, 0x7fff00,  # 0x100 regions
-            TOP - 0x100, TOP]
-    rng.shuffle(pool)
-    return pool[:rng.randint(2, 9)]
+def region(a):
+    """(base, size) of the region of address a, or None if the callback fails there"""
+    if (a // 0x8000) % 2 == 0:
+        blk = a // 0x1000
+        return None if blk % 8 == 5 else (blk * 0x1000, 0x1000)
+    blk = a // 0x100
+    return None if blk % 8 == 3 else (blk * 0x100, 0x100)
 
 
-def _addr(rng, regs, align):
-    base = rng.choice(regs)
-    size = 0x1000 if (base < 0x10000 or base >= TOP) else 0x100
+def _size(base):
+    return 0x1000 if (base // 0x8000) % 2 == 0 else 0x100
+
+
+def _addr(rng, base, align, edge=True):
+    size = _size(base)
     k = rng.random()
     if k < 0.15:
         a = base
     elif k < 0.3:
         a = base + size - align
-    elif k < 0.4:
+    elif edge and k < 0.4:
         a = base - align            # just below: another region (or wraps below 0)
-    elif k < 0.5:
+    elif edge and k < 0.5:
         a = base + size             # just above
     else:
         a = base + rng.randrange(0, size, align)
     return a & MAX & ~(align - 1)
 
 
+def _op(rng, a_as, base, kinds="GGRRRB", edge=True):
+    k = rng.choice(kinds)
+    return "%s:%x:%x" % (k, a_as, _addr(rng, base, 8 if k == "R" else 1, edge))
+
+
 def gen_case(rng, reentrant=False):
     """One history; with reentrant=True some operations have a callback that re-enters."""
-    regs = _regions(rng)
     spaces = rng.choice([[0], [0, 1], [0, 1, 2]])
+    regs = rng.sample(POOL, rng.randint(2, 8))
+    for b in list(regs):
+        if rng.random() < 0.3:
+            regs.append((b + rng.choice(SHIFTS)) & MAX)
     ops = []
-    for _ in range(rng.randint(1, 14)):
-        k = rng.random()
+    want = rng.randint(1, 14)
+    collide = rng.random() < 0.6
+    while len(ops) < want:
         a_as = rng.choice(spaces)
+        k = rng.random()
         if reentrant and k < 0.3:
-            ops.append("N:%x:%x:%x:%x" % (a_as, _addr(rng, regs, 1), rng.choice(spaces), _addr(rng, regs, 1)))
-        elif k < 0.5:
-            ops.append("G:%x:%x" % (a_as, _addr(rng, regs, 1)))
-        elif k < 0.85:
-            ops.append("R:%x:%x" % (a_as, _addr(rng, regs, 8)))
+            ops.append("N:%x:%x:%x:%x" % (a_as, _addr(rng, rng.choice(regs), 1), rng.choice(spaces),
+                                          _addr(rng, rng.choice(regs), 1)))
+        elif collide and k < 0.55:
+            # collision segment: x stays cached while its look-alike y is asked for
+            x = rng.choice([b for b in regs if region(b)] or [0x1000])
+            d = rng.choice(SHIFTS)
+            y = (x + d) & MAX if rng.random() < 0.7 else (x - d) & MAX
+            if rng.random() < 0.3:
+                x, y = y, x
+            ops.append(_op(rng, a_as, x, "GR", edge=False))
+            others = [b for b in regs if b != x and b != y]
+            for b in rng.sample(others, min(len(others), rng.randint(0, 3))):
+                ops.append(_op(rng, rng.choice(spaces), b, "GR", edge=False))
+            probe = _op(rng, a_as, y, "GGRRRBB", edge=False)
+            ops.append(probe)
+            if probe[0] == "B":
+                # show the LRU victim: misses on further regions, then the pair again
+                for b in rng.sample(others, min(len(others), rng.randint(1, 3))):
+                    ops.append(_op(rng, a_as, (b + (1 << 20)) & MAX, "GR", edge=False))
+            if rng.random() < 0.5:
+                ops.append(_op(rng, a_as, rng.choice([x, y]), "GR", edge=False))
         else:
-            ops.append("B:%x:%x" % (a_as, _addr(rng, regs, 1)))
+            ops.append(_op(rng, a_as, rng.choice(regs)))
     return " ".join(ops)
+
+
+def has_pair(case):
+    """the history asks for a look-alike of a region touched at most 4 operations earlier
+    (an offset computed in 16, 31, 32 or 63 bits would take the cached slot for it)"""
+    ops = []
+    for t in case.split():
+        f = t.split(":")
+        ops.append((f[0], int(f[1], 16), int(f[2], 16)))
+    for j, (kj, asj, aj) in enumerate(ops):
+        for i in range(max(0, j - 4), j):
+            ki, asi, ai = ops[i]
+            r = region(ai)
+            if ki not in "GR" or asi != asj or r is None:
+                continue
+            off = (aj - r[0]) & MAX
+            if off >= r[1] and any(off % (1 << k) < r[1] for k in (16, 31, 32, 63)):
+                return True
+    return False
+
+
+def nontrivial(case, impl_out):
+    return has_pair(case) or impl_out.count(" ") >= 5
 
 
 def spec_line(case, impl_out):
@@ -97,6 +160,7 @@ def _main():
         dis = [i for i in range(n) if model[i] != impl[i]]
         bad = [i for i in range(n) if spec[i] != "ok"]
         nops = sum(len(c.split()) for c in cases)
+        print("  cases with a look-alike pair: %d of %d" % (sum(1 for c in cases if has_pair(c)), n))
         print("%s histories: %d cases, %d ops, %d distinct; model = implementation on %d; "
               "crashes %d; judged by the cache-less spec: %d ok, %d not"
               % ("re-entrant" if reentrant else "non-re-entrant", n, nops, len(set(cases)),
